@@ -1,7 +1,7 @@
 //! Kani harnesses for `ArrayBuf` in src/buffer/ring_buffer.rs (C19; also the RingBuf contract the mpmc proofs assume).
 //! GROUP: arraybuf
 //! MODULE: buffer::ring_buffer::kani_verif
-//! TAGS: C19
+//! TAGS: C19 C18
 //! N: quick=4 thorough=8
 //! UNWIND_EXTRA: 6
 //! KIND: harness (inductive step from an arbitrary valid buffer state; symbolic indices and contents)
@@ -11,6 +11,8 @@
 //! sequence; len/is_empty/can_push/capacity are checked against the shadow; Drop is checked with drop-counting
 //! elements (every stored element dropped exactly once, popped elements never by the buffer).
 use super::*;
+#[path = "/verif/kani/kit.rs"]
+mod kit;
 
 static mut DROPS: [u8; 8] = [0; 8];
 
@@ -194,6 +196,28 @@ where
     assert!(b.len() == size - popped, "[C19] len() counts zero-sized elements too");
     drop(b);
     assert!(unsafe { ZDROPS } as usize == size - popped, "[C19] dropping the buffer drops every element still inside exactly once, whatever the element size (zero-sized elements included)");
+}
+
+/// FixedHeapBuf: "fixed" means the whole capacity is allocated by the constructor; filling it and draining it afterwards
+/// never allocates or frees (C18: the fixed heap buffer is a non-growing flavour)
+#[cfg(feature = "alloc")]
+#[kani::proof]
+#[kani::stub(alloc::alloc::alloc, kit::no_alloc)]
+#[kani::stub(alloc::alloc::dealloc, kit::no_dealloc)]
+#[kani::stub(alloc::alloc::realloc, kit::no_realloc)]
+fn fixed_heap_buf_allocates_only_in_its_constructor() {
+    let mut b = FixedHeapBuf::<u8>::with_capacity(2);
+    assert!(b.capacity() == 2 && b.len() == 0 && b.can_push(), "[C19] a new fixed heap buffer is empty and has the requested capacity");
+    kit::arm();
+    b.push(1);
+    b.push(2);
+    assert!(!b.can_push() && b.len() == 2, "[C19] the fixed heap buffer is full at its capacity");
+    let x = b.pop();
+    b.push(3);
+    let y = b.pop();
+    kit::disarm();
+    assert!(x == 1 && y == 2, "[C19] FIFO");
+    core::mem::forget(b);
 }
 
 #[kani::proof]
